@@ -58,15 +58,39 @@ def layoutOf : List FItem → Bool → List LField
 inductive SCall where
   | unq (b : Bytes)
   | quo (payload : Bytes)
+  /-- `write_unquoted` with the bytes of a scalar as it stands on disk (for a quoted scalar: the
+  quotes and the already escaped content — what `write_tape` writes for a `Quoted` token) -/
+  | raw (s : Scal)
+  | bool (b : Bool)
+  | i32 (i : Int)
+  | u32 (n : Nat)
+  | i64 (i : Int)
+  | u64 (n : Nat)
+  | date (f : DateFormat) (year : Int) (month day hour : Nat)
 
 def SCall.call : SCall → Call
   | .unq b => .unquoted b
   | .quo p => .quoted p
+  | .raw s => .unquoted s.text
+  | .bool b => .bool b
+  | .i32 i => .i32 i
+  | .u32 n => .u32 n
+  | .i64 i => .i64 i
+  | .u64 n => .u64 n
+  | .date f y m d h => .date f y m d h
 
-/-- the scalar the call denotes on disk: a quoted payload stands escaped between the quotes -/
+/-- the scalar the call denotes on disk: a quoted payload stands escaped between the quotes, the
+typed calls write the unquoted text of their value -/
 def SCall.scal : SCall → Scal
   | .unq b => ⟨false, b⟩
   | .quo p => ⟨true, escape p⟩
+  | .raw s => s
+  | .bool b => ⟨false, if b then [121, 101, 115] else [110, 111]⟩
+  | .i32 i => ⟨false, fmtInt i⟩
+  | .u32 n => ⟨false, fmtNat n⟩
+  | .i64 i => ⟨false, fmtInt i⟩
+  | .u64 n => ⟨false, fmtNat n⟩
+  | .date f y m d h => ⟨false, fmtDate f y m d h⟩
 
 /-- `key [operator] value`: `op = none` leaves the `=` implicit -/
 structure FField where
@@ -86,11 +110,20 @@ def fcalls : List FField → List Call
 def FField.item (f : FField) : FItem :=
   { key := f.key.scal, op := (match f.op with | none => .eq | some o => opTT o), val := f.val.scal }
 
-/-- an unquoted call payload that is a scalar of the text format (`Scal.Valid`, unquoted case) -/
+/-- what has to be assumed of a call for its text to be a scalar of the text format: only the
+caller-supplied raw bytes (`write_unquoted`) need to be one (`Scal.Valid`); quoted payloads and the
+typed calls (booleans, integers, dates) always are -/
 def SCall.Valid (c : SCall) : Prop :=
   match c with
   | .unq b => (⟨false, b⟩ : Scal).Valid
-  | .quo _ => True
+  | .raw s => s.Valid
+  | _ => True
+
+/-- the typed scalar calls: `write_bool`, `write_i32`, `write_u32`, `write_i64`, `write_u64`,
+`write_date` -/
+def SCall.isTyped : SCall → Prop
+  | .bool _ | .i32 _ | .u32 _ | .i64 _ | .u64 _ | .date .. => True
+  | _ => False
 
 /-! #### C14: the tape of a flat document -/
 
